@@ -228,6 +228,18 @@ def helpers(chk):
         z = Other(name=f[0], value=f[1], signature=f[2])
         if x == z or z == x:
             bad.append(('record', 'records of different types with equal fields compare equal'))
+    # equal values of different numeric type or sign: records that compare equal must still hash equally
+    eqpool = [0, 0.0, -0.0, False, 1, 1.0, True, 2 ** 31, float(2 ** 31), -5, -5.0, 'a', None, 0.5]
+    for _ in range(600):
+        f = [rng.choice(eqpool) for _ in range(5)]
+        g = [rng.choice([v for v in eqpool if v == x and type(v) is not type(x)] or [x]) if rng.random() < 0.7 else rng.choice(eqpool) for x in f]
+        x = PositionAndLook(x=f[0], y=f[1], z=f[2], yaw=f[3], pitch=f[4])
+        y = PositionAndLook(x=g[0], y=g[1], z=g[2], yaw=g[3], pitch=g[4])
+        chk.count('record-eq-hash', [repr(f), repr(g)], True)
+        if (x == y) != (f == g):
+            bad.append(('record', 'PositionAndLook%s == PositionAndLook%s is %s; field-wise comparison gives %s' % (f, g, x == y, f == g)))
+        if x == y and hash(x) != hash(y):
+            bad.append(('record', 'PositionAndLook%r and PositionAndLook%r compare equal but hash differently' % (f, g)))
     # aliases
     ctx = ConnectionContext(protocol_version=757)
     for _ in range(100):
